@@ -183,9 +183,12 @@ theorem repeated_key_counterexample :
 OPEN — carried by K/O only: nothing of C02's statement except what `Props/C01.lean` lists (model = code (K); the trusted
 reading of TypeScript).  The hypotheses `Hyp` are PROVED for the schema declaration file the model of the schema printer
 emits and the absence of panics with the model's own fuels is proved (`Props/C01Closed.lean`); `Props/C02Closed.lean` has
-the end-to-end forms (`C02_end_to_end`, `C02_pipeline_end_to_end`) and what is left after them: the fuel of the
-executable specification is covered from the expanded size upwards, not at the driver's `docSize D + 8`
-(`fuelOk_not_tight_witness`).  The O stream keeps testing the REAL emitted files.
+the end-to-end forms (`C02_end_to_end`, `C02_pipeline_end_to_end`) and what is left after them: the hypotheses no check
+establishes, listed in the block at the end of `Props/C01Closed.lean` (`skipIncludeB`, `CfgOk`, `noKeyClashB`, the
+scalar-text clauses of `DocOK`, the wrapper bound, `schemaOkB` / `ifaceOkB` kept as hypotheses), the value hypothesis
+`JWf`, and the fuel of the executable specification, which is covered from the expanded size upwards, not at the
+driver's `docSize D + 8` (`fuelOk_not_tight_witness`).  `RefLocal` is a superset of `Exec` (`C01.exec_sub_refLocal`):
+exclusion is proved relative to `RefLocal`.  The O stream keeps testing the REAL emitted files.
 -/
 
 end NitroVerif.Props.C02
